@@ -2407,10 +2407,15 @@ def extend(
 
         c_oper_identifiers.extend(c_oper_identifier)
         n_oper_identifiers.extend(n_oper_identifier)
-        c_opers.extend(util.tensor_insert(pulse.c_opers, *[ID]*len(pos), pos=pos,
-                                          arr_dims=[[d_per_qubit]*len(qubits)]*2))
-        n_opers.extend(util.tensor_insert(pulse.n_opers, *[ID]*len(pos), pos=pos,
-                                          arr_dims=[[d_per_qubit]*len(qubits)]*2))
+        if pos:
+            c_opers.extend(util.tensor_insert(pulse.c_opers, *[ID]*len(pos), pos=pos,
+                                              arr_dims=[[d_per_qubit]*len(qubits)]*2))
+            n_opers.extend(util.tensor_insert(pulse.n_opers, *[ID]*len(pos), pos=pos,
+                                              arr_dims=[[d_per_qubit]*len(qubits)]*2))
+        else:
+            # The pulse covers the whole register, nothing to insert
+            c_opers.extend(pulse.c_opers)
+            n_opers.extend(pulse.n_opers)
 
         c_coeffs.extend(pulse.c_coeffs)
         n_coeffs.extend(pulse.n_coeffs)
@@ -2510,10 +2515,13 @@ def extend(
             # Insert ones into eigvals at these positions
             HD_pos = [bisect.bisect(qubits, q) for q in all_qubits.difference(qubits)]
 
-            eigvals += util.tensor_insert(pulse.eigvals,
-                                          *np.ones((len(HD_pos), d_per_qubit)),
-                                          pos=HD_pos, rank=1,
-                                          arr_dims=[[d_per_qubit]*len(qubits)])
+            if HD_pos:
+                eigvals += util.tensor_insert(pulse.eigvals,
+                                              *np.ones((len(HD_pos), d_per_qubit)),
+                                              pos=HD_pos, rank=1,
+                                              arr_dims=[[d_per_qubit]*len(qubits)])
+            else:
+                eigvals += pulse.eigvals
 
             (eigvecs, propagators), registers = _merge_attrs([eigvecs, propagators],
                                                              [pulse.eigvecs, pulse.propagators],
